@@ -1,45 +1,72 @@
 """Shaped-array (numpy) dialect of the source translator — `FnShaped`, a subclass of `translate.Fn` selected by
 `dialect='shaped'` in a spec (translate.fn_class), so the text produced for every other spec is unchanged.  It plugs into
 the hooks of `Fn` (`expr_ext`, `cond_ext`, `stmt_ext`, `assigned_ext`, `result_type_ext`) and wraps `block` / `loop` /
-`translate`.  Used by the source ties of C01, C03 and C19.
+`translate` / `is_nat` / `nat` / `add_param` / `lean_ty`.  Used by the source ties of C01, C03 and C19.
 
 What it adds to the subset of harness/translate.py (everything else still raises Untranslatable; nothing is special-cased
-by function name, all text derives from the AST):
+by function name, all text derives from the AST; what a spec declares is listed at the end):
 
-  * ARRAY-VALUED EXPRESSIONS.  An array is a function of its indices (`Nat → α`, `Nat → Nat → α`); an array expression
-    is translated to the Lean text of ONE element, as numpy defines it:
-      - element-wise + - * /, unary -, `**k` (literal k), np.exp/log/log10/sqrt, np.maximum/np.minimum of two operands,
+  * ARRAY-VALUED EXPRESSIONS.  An array is a function of its indices (`Nat → α`, `Nat → Nat → α`, masks `Nat → Bool`); an
+    array expression is translated to the Lean text of ONE element, as numpy defines it:
+      - element-wise + - * /, unary -, `**k` (literal k in 2..6: repeated product), `x ** y` with any other exponent (a
+        parameter `powf : α → α → α`: numpy's float power), np.exp/log/log10/sqrt, np.maximum/np.minimum of two operands,
         with numpy broadcasting (shapes aligned at the trailing axis; `x[:, None]` / `x[None, :]` insert a broadcast axis);
-      - basic indexing: `a[i]` on a 2-D array (a row), `a[i, :]`, slices `a[lo:]`, `a[lo:hi]`, `a[:hi]`, `a[:]`
+      - basic indexing: `a[i]` on a 2-D array (a row), `a[i, :]`, slices `a[lo:]`, `a[lo:hi]`, `a[:hi]`, `a[:-k]`, `a[:]`
         (element r of the slice is element lo+r of the array), `a[::-1]` (needs the declared length), `...`;
-      - `np.zeros(shape=…)`, `np.zeros_like`, `np.sum(X, axis=0)` (left fold from 0 over the first axis, in index order),
-        `np.sum(X)` / `X.sum()` of a 1-D array, `X.max()` / `X.min()` / `np.max(X)` (left fold of the two-operand
-        maximum/minimum from the first element);
-      - comparisons of arrays give Bool arrays (masks); `&` / `|` of masks.
-    Shapes are tracked symbolically (declared with `dims`); wherever numpy REQUIRES two axis lengths to agree (element-wise
-    operands, stores) and the two symbolic lengths are not textually identical, the equation is recorded and emitted as the
-    companion proposition `<name>_shapes` (a conjunction, quantified over the enclosing loop variables) which the tie file
-    must prove.  Under `<name>_shapes` no silent length-1 broadcast of a slice can occur.
+      - `np.zeros(shape=…)`, `np.zeros_like`, `x.copy()`, `np.sum(X, axis=0)` (left fold from 0 over the first axis, in
+        index order), `np.sum(X)` / `X.sum()` of a 1-D array, `X.max()` / `X.min()` / `np.max(X)` as VALUES (left fold of
+        the two-operand maximum/minimum from the first element; numpy would propagate a NaN element, the fold skips it:
+        faithful for NaN-free arrays);
+      - comparisons of arrays give masks; `&` / `|` of masks;
+      - `np.inf`, `np.pi` are parameters (`inf`, `pi`).
+    SHAPES are tracked symbolically (declared with `dims`, or known from `np.zeros(shape=…)` and slicing).  Wherever numpy
+    REQUIRES two axis lengths to agree (element-wise operands, stores, `zip`) and the two symbolic lengths are not textually
+    identical, and wherever a slice has an explicit stop (numpy would silently CLIP a stop beyond the axis), the fact
+    `len₁ = len₂` / `stop ≤ len` is recorded, under the enclosing loop binders (for any loop state), branch conditions and
+    the earlier statements it mentions, and all of them are emitted as the companion proposition `<name>_shapes`, which the
+    tie file proves.  Under `<name>_shapes` no slice is clipped and no length-1 slice is silently broadcast.
+  * TESTS.  `X.min() > c`, `X.min() >= c`, `X.max() < c`, `X.max() <= c` (either way round) ↦ `List.all` of the element
+    test (equivalent also under NaN, see `minmax_test`); float `a == b` / `a != b` ↦ `a ≤ b ∧ b ≤ a` (IEEE: false for NaN);
+    Bool attributes; `x is None` for an optional external / an optional array (below); tests decided by the spec's `static`
+    assumptions select one branch at translation time.
+  * NATURAL NUMBERS: `X.size` of a 1-D array of known length; `np.searchsorted(A, v[, side=…])` on a SORTED array of known
+    length ↦ `countP` of `· < v` (left) / `· ≤ v` (right) (the assumption "A is sorted" is the tie's).
+  * `x = sorted([a, b])` ↦ the two scalars `x_0`, `x_1` (python's stable sort: swapped exactly when `b < a`); `x[0]`, `x[1]`,
+    `x[-1]`, `x[-2]`.
   * STORES.  `a[lo:hi] = E`, `a[lo:] op= E`, `a[i] = row`, `a[i] += row`, `a[...] = c`, `a[mask, :] = c`,
-    `a[mask, ...] = row`: a new function that is `E` on the stored index set and the old array elsewhere.
-    A store through a variable that has a live view/alias (or is one) raises Untranslatable (numpy views share memory).
-  * PYTHON LISTS OF ARRAYS: `xs = []`, `xs.append(E)`, `xs[i]`, `return xs`  ↦  `List (Nat → α)`.
-  * IN-PLACE RESULTS: spec `out='tau'`: the function's result is the final value of the (mutated) parameter `tau`; a call
-    statement `f(…, tau)` of such a translated function re-binds the argument variable.
-  * TUPLE RESULTS: spec `returns=['arr', 'arr2']`; `a, b = self.f(…)` for a translated `f` with a tuple result.
-  * LOOPS OVER A LIST OF OBJECTS with `break`: `for c in self.contribution_list:` ↦ `List.foldl` over a list of an abstract
-    element type `ι`, the state carries the flag "the loop was left by break"; `if cond: break` ↦ the flag is set and the
-    remaining statements are skipped.  Method calls on the loop object are declared in `methods` and become a function
-    parameter taking the object first (dynamic dispatch is supplied by the tie theorem).
-  * `X.min() > c`, `X.min() >= c`, `X.max() < c`, `X.max() <= c` of a 1-D array against a scalar ↦ `List.all` of the
-    element test (equivalent also under NaN, see `minmax_test`); `X.max()` / `X.min()` used as VALUES are the folds above
-    (numpy would propagate a NaN element, the fold skips it: faithful for NaN-free arrays only).
-  * variables first assigned in both branches of an `if` (same kind in both).
-  * GENERATORS: spec `yields='single'`: a generator with exactly one `yield name, E` as the last statement of its body
-    ↦ returns the array E;  spec `yields='list'`: every `yield name, E` appends E AS IT IS AT THE TIME OF THE YIELD to the
-    result list (a consumer that reads the component before resuming the generator, as Contribution.prepare does, sees
-    exactly that value even when the generator re-uses one buffer).
-  * spec `ignore_stores`: attribute stores `self.x = …` that are side effects outside the translated value.
+    `a[mask, ...] = row`, `x op= E` on an array variable: a new function that is `E` on the stored index set and the old
+    array elsewhere.  A store through a variable that has a live view/alias (or is one) raises Untranslatable (numpy views
+    share memory).
+  * PYTHON LISTS OF ARRAYS: `xs = []`, `xs.append(E)` (the element is the value E has at that time), `xs[i]`, `return xs`,
+    `[x for _, x in ys]` over a declared list of tuples  ↦  `List (Nat → α)` / `List (Nat → Nat → α)`.
+  * IN-PLACE RESULTS: spec `out='tau'` (or a local attribute): the function's result is the final value of that variable;
+    a call statement `f(…, tau)` of such a translated function re-binds the argument variable.
+  * TUPLE RESULTS: spec `returns=['arr', 'arr2']`; `a, b = f(…)` for a translated `f` with a tuple result.  A callee's
+    declared array lengths (`lens`) are passed as the lengths of the actual arguments.
+  * LOOPS.  `for c in <declared list of objects>` (abstract element type `ι`) and `for name, x in <declared list of
+    values>` ↦ `List.foldl`; `if cond: break` ↦ the state carries the flag "left by break", set here, and the remaining
+    statements / iterations are skipped; `if cond: continue` ↦ the rest of the body is skipped.  `for i, x in
+    enumerate(A)`, `for i, tp in enumerate(zip(A, B))` + `t, p = tp` ↦ the `range` loop over the index.  Method calls on the
+    loop object are declared in `methods` and become a function parameter taking the object first (dynamic dispatch is
+    supplied by the tie theorem); look-ups that depend on the loop object are declared in `obj_externals` (functions of the
+    object), an OPTIONAL one (`x = ext(obj); if x is not None:`) comes with the predicate `<lean>Defined`.
+  * variables first assigned in both branches of an `if` (same kind in both); variables first assigned in ONE branch are
+    local to it.
+  * OPTIONAL ARRAYS (`optional_vars`): `x = None`; `if x is None: x = E [else: …]` ↦ a `match` on `Option`; afterwards x is
+    an array; a loop that carries x puts it back as `some x`.
+  * GENERATORS: spec `yields='single'`: exactly one `yield name, E` as the last statement ↦ returns the array E;
+    `yields='list'`: every `yield name, E` appends E AS IT IS AT THE TIME OF THE YIELD to the result list (a consumer that
+    reads the component before resuming the generator, as Contribution.prepare does, sees exactly that value even when the
+    generator re-uses one buffer).
+  * LOCAL ATTRIBUTES (`local_attrs`): `self.x = e` followed by reads of `self.x` in the same function: a local variable.
+
+Spec keys of this dialect (besides those of Fn): `out`, `returns` (kind or list of kinds; also 'arrlist', 'arr2list',
+'optarr2'), `dims` (python text of an array -> [length per axis]), `objlists`, `obj_assign`, `vallists`, `methods`,
+`obj_externals`, `obj_derived`, `call_list_externals`, `list_externals`, `shaped_externals`, `local_attrs`,
+`ignore_stores` (attribute stores that are side effects outside the translated value), `ignore_stmts` (exact statement
+texts that only bind helper objects), `static` (text of a test -> the truth value the TIE ASSUMES, e.g. the opacity
+method), `optional_vars`, `yields`.  Every declaration is matched against the source text: a statement that no longer
+matches its declaration makes the function untranslatable (a broken obligation), never silently different.
 """
 import ast
 import re
